@@ -137,6 +137,24 @@ def static_checks(acc):
             acc.observe("class-not-in-command-table:%s.%s" % key)
             continue
         params = [p.name for p in msggen.params_of(cls)]
+        # argument -> AVP class rule, independent of the library's own tables: the argument is the snake_case form of the
+        # dictionary class name (error_reporting_host <-> ErrorReportingHostAVP); checked against the vendored dictionary
+        import re as _re
+        from bvm import refdict as _RD
+        by_snake = {"_".join(_re.findall("[A-Z0-9][^A-Z]*", n[:-3])).lower(): n for n in _RD.load()["avps"]}
+        for tab in (cls.mandatory, cls.optionals):
+            for arg, tcls in tab.items():
+                key_ = arg.lstrip("_")
+                conv = by_snake.get(key_)
+                if conv is None and key_.endswith("_avp"):
+                    conv = by_snake.get(key_[:-4])
+                acc.counters["table_entries_checked"] += 1
+                if conv is None:
+                    acc.observe("argument-without-dictionary-class-by-name:%s" % arg)
+                elif conv != tcls.__name__:
+                    acc.violation("argument-mapped-to-wrong-avp-class:%s.%s.%s" % (lib, cls.__name__, arg),
+                                  "%s.%s maps argument %r to %s; the dictionary class of that name is %s" % (lib, cls.__name__, arg, tcls.__name__, conv),
+                                  {"class": "%s.%s" % key, "argument": arg, "table": tcls.__name__, "by_name": conv})
         for name in list(cls.mandatory) + list(cls.optionals):
             if name not in params:
                 kind = "mandatory" if name in cls.mandatory else "optional"
